@@ -304,6 +304,7 @@ func runC02(e *Engine, r *Report) {
 	ruleLastAppliedContiguous(e, r)
 	// the apply cursor handed out by the raft core never rewinds (decided by C19's rule set)
 	borrow(e, r, "C19", "DEP-processed-ack")
+	borrow(e, r, "C03", "TBL-state-compare", "WMW-state", "WMW-vote", "WMW-vote-self", "WMW-vote-load")
 	borrow(e, r, "C08", "OWN-members-copy", "TBL-ssmeta")
 }
 
